@@ -233,6 +233,7 @@ def run_case(case):
                 if bad or left:
                     raise Inconclusive("jobs did not all succeed in the full drain: failed %s left %s" % (bad, left))
                 check_converged("full run after selection")
+        res.obs("execution_orders", [list(o)[:40] for o in orders[:4]])
         res.count("distinct_orders_upper_bound", len(set(orders)))
         shared = any(len(v) >= 2 for v in inv.values()) or any(len(v) >= 2 for v in deps.values())
         res.sig = (gen.shape_class(deps), sched, kinds, sizes, case["hashing"], bool(pats))
